@@ -29,11 +29,18 @@ def fmtTree : Tree → String
   | .nil => "."
   | .node c l k v r => s!"({if c = .black then "B" else "R"} {k}:{v} {fmtTree l} {fmtTree r})"
 
-def fmtIter : Option TreeIter → String
+/-- a node pointer of the iterator: key and position (the C shim computes the position by climbing the
+parent pointers) -/
+def fmtNode (t : Tree) (k : Nat) : String :=
+  match Tree.posOf k t with
+  | some p => s!"{k}/" ++ String.join (p.map fun d => match d with | .L => "L" | .R => "R")
+  | none => s!"{k}/?"
+
+def fmtIter (t : Tree) : Option TreeIter → String
   | none => "-"
   | some it =>
-    let c := match it.cur with | .sentinel => "S" | .null => "N" | .at k => toString k
-    let n := match it.next with | none => "S" | some k => toString k
+    let c := match it.cur with | .sentinel => "S" | .null => "N" | .at k => fmtNode t k
+    let n := match it.next with | none => "S" | some k => fmtNode t k
     s!"cur:{c},next:{n}"
 
 def content (m : OrdMap) : String :=
@@ -46,7 +53,7 @@ def obsS (f : Option OrdMap) : String := content (f.getD [])
 def phys (s : Sess) (cmps : Nat) : String :=
   match s.model with
   | none => "-"
-  | some t => s!"size={t.size} cmps={cmps} it={fmtIter s.iter} tree={fmtTree t.root}"
+  | some t => s!"size={t.size} cmps={cmps} it={fmtIter t.root s.iter} tree={fmtTree t.root}"
 def inv (s : Sess) : Bool := match s.model with | none => true | some t => decide (t.Inv (cmpOf s.which))
 
 /-- header of a result: status, out-value, callback log -/
